@@ -198,7 +198,16 @@ def st_decoy_filters(draw, store):
     t = draw(st.sampled_from(tags))
     near = draw(st.sampled_from([t[1] + "x", t[1] + t[1] + "z", "z" + t[1], t[1] + "\x00"]))
     kind_other = e["kind"] + 1 if e["kind"] < 65535 else 1
-    shape = draw(st.integers(0, 3))
+    shape = draw(st.integers(0, 5))
+    if shape >= 4:
+        # a filter the relay drops only AFTER it has looked at some of its values (an empty value list next to a
+        # non-empty one), followed by filters that use the same names/values again
+        others = [u for u in tags if u[0] != t[0]]
+        u = draw(st.sampled_from(others)) if others else ["p", PUBS[0]]
+        dropped = {"#" + t[0]: [t[1]], "#" + ("e" if t[0] != "e" else "q"): []}
+        if shape == 4:
+            return [dropped, {"#" + t[0]: [t[1], near]}]
+        return [dropped, {"#" + t[0]: [near], "#" + u[0]: [u[1]]}]
     if shape == 0:
         return [{"ids": [e["id"]], "#" + t[0]: [near]}]
     if shape == 1:
